@@ -24,8 +24,13 @@ WFORMS = [lambda w: str(int(w)) if float(w).is_integer() else repr(float(w)),
 
 def make_block(rng, idx):
     if rng.random() < 0.08:
-        return {"headers": [f"empty block {idx}"], "cons": [], "n": 0, "edges": [], "zero": True}
+        # a block without edge lines; the vertex-count line is informational (the fixture files of the repository often disagree with the
+        # real node count), so it need not be 0
+        return {"headers": [f"empty block {idx}"], "cons": [], "n": rng.choice([0, 0, 3]), "edges": [], "zero": True}
     nodes, edges = gen.cyc_any(rng, 12) if rng.random() < 0.5 else gen.dag_any(rng, 12)
+    if rng.random() < 0.06:
+        # a graph without source (or without sink): listed edges must still be read; no width is defined for it
+        nodes = ["a", "b", "c"]; edges = rng.choice([[("a", "b"), ("b", "a")], [("a", "b"), ("b", "c"), ("c", "b")], [("a", "b"), ("b", "a"), ("b", "c")]])
     toks = []
     for (u, v) in edges:
         w = rng.choice([0, 1, 2, 3, 7, 10, 100, 0.5, 2.25, 3.5, 12.125])
@@ -60,7 +65,9 @@ def make_block(rng, idx):
             "Source: simulated", "SRR1234 run"]
     first = rng.choice([f"graph number = {idx} name = g{rng.randint(0, 999)}"] * 3 + [f"Sample {idx} replicate {rng.randint(1, 9)}", f"Strain_K{idx}", f"S{idx}", f"{idx}"])
     headers = [first] + [rng.choice(pool) for j in range(nh - 1)]
-    return {"headers": headers, "cons": cons, "n": len(set(x for e in edges for x in e)), "edges": toks, "zero": False}
+    n_real = len(set(x for e in edges for x in e))
+    return {"headers": headers, "cons": cons, "n": n_real if rng.random() < 0.8 else rng.choice([0, 1, n_real + 3]), "edges": toks, "zero": False,
+            "blank_in_header": rng.random() < 0.15}
 
 
 def render(rng, blocks):
@@ -76,6 +83,8 @@ def render(rng, blocks):
         rest = [next(ci) if x.startswith("#S") else x for x in rest]
         for l in [hdr[0]] + rest:
             lines.append(rng.choice(["", " "]) + l)
+            if b.get("blank_in_header") and rng.random() < 0.5 and l is not ([hdr[0]] + rest)[-1]:
+                lines.append("")          # a blank line between two header lines of the same block
         if rng.random() < 0.3:
             lines.append("")
         lines.append(rng.choice(["", " "]) + str(b["n"]) + rng.choice(["", " "]))
@@ -116,7 +125,7 @@ def compare(G, exp, viol, obs, where):
         H = nx.DiGraph(list(exp["edges"]))
         if G.graph.get("n") != H.number_of_nodes() or G.graph.get("m") != H.number_of_edges():
             viol.append({"sig": "C20/stored-n-m", "msg": f"{where}: n,m = {G.graph.get('n')},{G.graph.get('m')} expected {H.number_of_nodes()},{H.number_of_edges()}"})
-        w = ref.walk_cover_width(H)
+        w = ref.walk_cover_width(H) if (ref.sources(H) and ref.sinks(H)) else None
         obs["c20.width_compared"] += 1
         if G.graph.get("w") != w:
             viol.append({"sig": "C20/stored-width", "msg": f"{where}: w = {G.graph.get('w')} reference width {w}; edges {sorted(exp['edges'])}"})
@@ -277,7 +286,7 @@ def run_case(case):
                 j = i
                 while j < len(lines) and (lines[j].strip().startswith("#") or not lines[j].strip()):
                     j += 1
-                if j >= len(lines) or lines[j].strip() == "0":
+                if j >= len(lines):
                     continue
             if kind == "nonnumeric-count":
                 pass
